@@ -45,6 +45,13 @@ fn gen_repl(rng: &mut Rng, ids: &[u64]) -> FuncSpec {
     }
 }
 
+/// C04 builds its own "previously fixed variable" variants; the shared generator's one is removed
+fn gen_inst(rng: &mut Rng, o: &GenOpts) -> InstSpec {
+    let mut i = gen_instance(rng, o);
+    i.vars.retain(|v| v.substituted.is_none());
+    i
+}
+
 fn repl_map(repl: &[(u64, FuncSpec)]) -> HashMap<u64, v1::Function> {
     let mut m = HashMap::new();
     for (k, f) in repl {
@@ -145,7 +152,7 @@ fn gen_graph(rng: &mut Rng, ids: &[u64], shape: u64) -> Vec<(u64, FuncSpec)> {
 }
 
 fn graph_case(rng: &mut Rng, five: bool) -> (InstSpec, Vec<(u64, F)>) {
-    let mut inst = gen_instance(rng, &GenOpts { max_vars: 6, max_cons: 2, max_removed: 1, max_degree: 2, deps: false, hints: false });
+    let mut inst = gen_inst(rng, &GenOpts { max_vars: 6, max_cons: 2, max_removed: 1, max_degree: 2, deps: false, hints: false });
     while inst.vars.len() < if five { 6 } else { 2 } {
         let id = 200 + inst.vars.len() as u64;
         inst.vars.push(VarSpec { id, kind: 3, bound: None, name: None, substituted: None, meta: None });
@@ -228,7 +235,7 @@ impl Prop for C04 {
                 Scenario::FuncSubst { f, repl, points }
             }
             3..=5 => {
-                let inst = gen_instance(rng, &GenOpts { max_vars: 6, max_cons: 3, max_removed: 2, max_degree: 3, deps: true, hints: false });
+                let inst = gen_inst(rng, &GenOpts { max_vars: 6, max_cons: 3, max_removed: 2, max_degree: 3, deps: true, hints: false });
                 let dep_ids = inst.dep_ids();
                 let mut remaining: Vec<u64> = inst.vars.iter().map(|v| v.id).filter(|i| !dep_ids.contains(i)).collect();
                 rng.shuffle(&mut remaining);
@@ -277,11 +284,11 @@ impl Prop for C04 {
                 Scenario::DepGraph { inst, order, state, via_samples: rng.chance(1, 4) }
             }
             _ => {
-                let mut inst = gen_instance(rng, &GenOpts { max_vars: 4, max_cons: 2, max_removed: 1, max_degree: 2, deps: false, hints: false });
+                let mut inst = gen_inst(rng, &GenOpts { max_vars: 4, max_cons: 2, max_removed: 1, max_degree: 2, deps: false, hints: false });
                 // log_encode allocates fresh IDs above the largest defined one, which cannot work when that is
                 // u64::MAX (ID allocation is C12's subject, not claimed): such instances are not used here
                 while inst.vars.iter().any(|v| v.id == u64::MAX) {
-                    inst = gen_instance(rng, &GenOpts { max_vars: 4, max_cons: 2, max_removed: 1, max_degree: 2, deps: false, hints: false });
+                    inst = gen_inst(rng, &GenOpts { max_vars: 4, max_cons: 2, max_removed: 1, max_degree: 2, deps: false, hints: false });
                 }
                 // make the first variable an integer with a finite range
                 let lo = rng.range(-3, 2) as f64 + if rng.chance(1, 4) { 0.5 } else { 0.0 };
